@@ -404,6 +404,9 @@ def make_input(kind, cols, rng_perm):
         df.index = ['t%d' % i for i in rng_perm]
         return df
     df = pd.DataFrame({c: list(v) for c, v in cols.items()})
+    if kind == 'table_beta_first':        # a paired table that lists the beta chain before the alpha chain (column order is not part of the format)
+        df = df[[c for c in ('CDR3B', 'TRBV', 'CDR3A', 'TRAV', 'TRBJ', 'TRAJ') if c in df.columns] + [c for c in df.columns if c not in ('CDR3B', 'TRBV', 'CDR3A', 'TRAV', 'TRBJ', 'TRAJ')]]
+        return df
     if kind == 'table_dupindex':          # rows of a concatenated table: every index value occurs twice
         df.index = [i // 2 for i in range(n)]
         return df
@@ -918,6 +921,53 @@ def cc_large(ctx, sizes):
         check_cc_large(ctx, n, adj, ['list', 'ndarray', 'int32'][it % 3], 'sparse graph on %d nodes' % n)
 
 
+def many_edges_graph(n, m, seed):
+    """m ordered triplets (more than 2**20) on n nodes, as an int64 array sorted by first index the way the search engines list them: short
+    chains (node u linked to u + 1 unless u % 5 == 4) in both orientations plus seeded long-range links among the HIGHEST node numbers, whose
+    rows come last (seeded change C15-r7m3: edges handed to igraph in blocks, the last partial block dropped)."""
+    import random as _r
+    r = _r.Random(seed)
+    a = np.arange(n - 1, dtype=np.int64)
+    a = a[a % 5 != 4]
+    und = np.stack([a, a + 1], axis=1)
+    extra = np.array([[r.randrange(n - 2000, n), r.randrange(0, n)] for _ in range(400)], dtype=np.int64)
+    extra = extra[extra[:, 0] != extra[:, 1]]
+    und = np.concatenate([und, extra])
+    both = np.concatenate([und, und[:, ::-1]])
+    both = both[np.lexsort((both[:, 1], both[:, 0]))][:m]
+    return np.concatenate([both, np.ones((len(both), 1), dtype=np.int64)], axis=1)
+
+
+def check_cc_many_edges(ctx, n, m, seed, desc):
+    from pyrepseq.clustering import graph_clustering
+    adj = many_edges_graph(n, m, seed)
+    exp = py_clusters(n, [(int(x), int(y)) for x, y in adj[:, :2]])
+    g = call_impl(lambda: graph_clustering(adj, np.arange(n), 'cc'))
+    ctx.count('cc:more than 2**20 triplets')
+    ctx.case(nontrivial_key=('cc-many-edges', n, len(adj), seed))
+    why = None
+    if g[0] != 'ok':
+        why = 'outcome %s' % (g,)
+    else:
+        try:
+            df = g[1]
+            got = {}
+            for node, c in zip(df.iloc[:, 0].to_numpy().tolist(), df.iloc[:, 1].to_numpy().tolist()):
+                got.setdefault(c, []).append(int(node))
+            got = sorted(sorted(v) for v in got.values())
+        except Exception as e:
+            got, why = None, 'result is not a (node, cluster) table: %s' % e
+        if got is not None and got != exp:
+            lost = [c for c in exp if c not in got][:3]
+            why = '%d clusters over %d nodes returned, %d clusters over %d nodes expected; e.g. expected only: %s' % (
+                len(got), sum(map(len, got)), len(exp), sum(map(len, exp)), lost)
+    if why:
+        ctx.violation('property', "%s: graph_clustering(%d triplets as int64 array, nodes=arange(%d), 'cc'): %s" % (desc, len(adj), n, why),
+                      dict(part='cc-many-edges', n=n, m=m, seed=seed), site='clustering.graph_clustering[cc]')
+        return False
+    return True
+
+
 def check_cc_refill(ctx, rounds, desc):
     """(a) called again and again with the SAME objects, refilled in place between the calls: one preallocated (m, 3) array, one label
     list. rounds: [(adj, labels, changed)] with equal lengths; every call must answer for the content at the time of the call."""
@@ -1142,6 +1192,21 @@ def hc_strings_as_given(ctx):
         ctx.count('hc:strings-as-given (case, symbols, blanks)')
         ctx.case(nontrivial_key=('hc-as-given', tuple(seqs), str(spec), str(lk), str(ck)))
         if not hc_compare(ctx, {None: seqs}, kind, list(range(n)), spec, lk, ck, 'strings differing by case / symbols / blanks', positional=(it % 2 == 1 and spec is not None)):
+            return
+
+
+def hc_column_order(ctx):
+    """(c) the default metric of a paired table does not depend on the ORDER of its columns (seeded change C15-r7m1: a lookup keyed by the
+    CDR3 columns in order of appearance)."""
+    rng = ctx.rng
+    for it in range(3 if ctx.quick else 18):
+        n = rng.randint(3, 9)
+        cols = tcr_columns(rng, n, 'AB')
+        lk = dict(method=['average', 'single', 'complete'][it % 3])
+        ck = dict(t=rng.randint(1, 6), criterion='distance')
+        ctx.count('hc:paired table, beta chain column first, default metric')
+        ctx.case(nontrivial_key=('hc-colorder', str(cols), str(lk), str(ck)))
+        if not hc_compare(ctx, cols, 'table_beta_first', list(range(n)), None, lk, ck, 'paired table with the beta chain columns first'):
             return
 
 
@@ -1532,6 +1597,8 @@ def run(ctx):
     cc_input_kinds(ctx, 40 if q else 800)
     cc_raw_search(ctx, 12 if q else 120)
     cc_large(ctx, [2 ** 15, 2 ** 16] if q else [2 ** 15, 2 ** 16, 2 ** 15, 2 ** 16, 2 ** 17, 2 ** 15])
+    for n_, m_ in ([(700000, 2 ** 20 + 4097)] if q else [(700000, 2 ** 20 + 4097), (700000, 2 ** 20 + 1), (1400000, 2 ** 21 + 70001)]):
+        check_cc_many_edges(ctx, n_, m_, rng.randrange(2 ** 31), 'more than 2**20 neighbour triplets')
     cc_refill(ctx, 3 if q else 30)
     if len(ctx.violations) > 8:
         return
@@ -1542,6 +1609,7 @@ def run(ctx):
     hc_refill(ctx, 2 if q else 20)
     hc_refill_table(ctx, 3 if q else 24)
     hc_strings_as_given(ctx)
+    hc_column_order(ctx)
     if len(ctx.violations) > 8:
         return
     sl_extras(ctx, 6 if q else 36)
@@ -1575,6 +1643,8 @@ def replay(ctx, obj):
         check_cc(ctx, r['n'], adj, r['kind'], r['labels'], 'replay', r.get('seqs'), r.get('engine'), r.get('k'), nkind=r.get('nkind'))
     elif part == 'cc-large':
         check_cc_large(ctx, r['n'], [tuple(t) for t in r['adj']], r['kind'], 'replay')
+    elif part == 'cc-many-edges':
+        check_cc_many_edges(ctx, r['n'], r['m'], r['seed'], 'replay')
     elif part == 'cc-refill':
         check_cc_refill(ctx, [([tuple(t) for t in a], list(l)) for a, l in r['rounds']], 'replay')
     elif part == 'hc-refill':
